@@ -39,8 +39,9 @@ func haversineDistance(x, y []float32) float32 {
 	sinDlat, sinDlon := math.Sin(dlat/2), math.Sin(dlon/2)
 	a := sinDlat*sinDlat + math.Cos(latx)*math.Cos(laty)*sinDlon*sinDlon
 	// For (nearly) antipodal points rounding can push a just above 1, where
-	// the arcsine is not defined.
-	c := 2 * math.Asin(math.Min(1, math.Sqrt(a)))
+	// the arcsine is not defined. Likewise just below 0 for the same place
+	// written with a latitude beyond a pole (the cosines then differ in sign).
+	c := 2 * math.Asin(math.Min(1, math.Sqrt(math.Max(0, a))))
 	return float32(earthRadius * c)
 }
 
